@@ -430,7 +430,8 @@ fn expand_usages(usages: HashSet<String>, args_len: usize, opts: &[&str]) -> Has
 
                 let mut check_and_push = |usage: &str| {
                     let usage_opts = usage.split('{').count() - 1;
-                    let usage_args = usage.split_whitespace().count() - 1;
+                    // a usage line without a program name (`Usage: [options]`) has no word left here
+                    let usage_args = usage.split_whitespace().count().saturating_sub(1);
 
                     if usage_args == args_len
                         || (opts_len > usage_opts && usage.contains("..."))
